@@ -6,6 +6,7 @@ fn main() {
     let args: Vec<String> = std::env::args().collect();
     match args.get(1).map(|s| s.as_str()) {
         Some("c11") => c11::main(&args[2..]),
+        Some("replay") => c11::replay(&args[2..]),
         Some("probe") => probe::main(&args[2..]),
         _ => {
             eprintln!("usage: h_bm25 <c11|probe> ...");
